@@ -259,11 +259,10 @@ def run_session(c):
                     viol.append('op %d: %s raised inside the %s inspector (expected_format=%r) reached the reader' % (k, canon(exc), tag, expected))
                 elif exp_fail is None or exp_fail['exc'] is not exc:
                     viol.append('op %d: exception of the expected inspector surfaced at another call' % k)
-            else:
-                if not (type(exc).__name__ == 'ImageFormatError' and exp_fail is not None and exp_fail['exc'] is None):
-                    viol.append('op %d: %s reached the reader without a failure / mismatch of the expected inspector' % (k, canon(exc)))
-            if exp_fail is not None and exp_fail['exc'] is not None and exc is not exp_fail['exc']:
-                viol.append('op %d: the expected inspector failed with %s but the reader got %s' % (k, canon(exp_fail['exc']), canon(exc)))
+            elif exp_fail is not None and exp_fail['exc'] is not None:
+                viol.append('op %d: the expected inspector failed with %s but the reader got another exception (%s)' % (k, canon(exp_fail['exc']), canon(exc)))
+            elif not (type(exc).__name__ == 'ImageFormatError' and exp_fail is not None):
+                viol.append('op %d: %s reached the reader without a failure / mismatch of the expected inspector' % (k, canon(exc)))
     # a failed (non-expected) inspector is never fed again
     for name, st in recs.items():
         if name == expected: continue
@@ -361,10 +360,10 @@ def names_now():
 
 def stream(rng, big=None):
     """(data spec, chunk size): sizes such that decisions fall on chunks 0..8"""
-    r = rng.random() if big is None else (0.99 if big else 0.0)
-    if r < 0.85:
+    r = rng.random() if big is None else (0.999 if big else 0.0)
+    if r < 0.93:
         return {'t': rng.choice(SMALL_T), 'n': rng.choice([0, 1, 100, 511, 512, 513, 600, 1024, 1500, 2048, 3000]), 'seed': rng.randrange(50)}, rng.choice([64, 100, 128, 150, 200, 256, 300, 512, 513, 700])
-    if r < 0.95:
+    if r < 0.99:
         return {'t': rng.choice(['iso', 'zeros', 'rand', 'iso+gpt', 'qcow2']), 'n': rng.choice([34 * 1024, 36 * 1024, 40000]), 'seed': rng.randrange(50)}, rng.choice([4096, 8192, 10000])
     return {'t': rng.choice(['vhdx', 'vhdxreg', 'zeros']), 'n': 300 * 1024, 'seed': rng.randrange(4) * 2}, 65536
 
